@@ -230,22 +230,39 @@ fn changed_views(before: &BTreeMap<String, String>, after: &BTreeMap<String, Str
     (b, a, true)
 }
 
-/// `vh refactor-replay <libraries.ndjson> <events.ndjson> <scratch> [--shard i/n]`
+/// `vh refactor-replay <libraries.ndjson> <events.ndjson> <scratch> [--shard i/n] [--from line]`
+/// (`--from`: append to the events file and skip the libraries before that line - the driver resumes
+/// after a stack overflow or abort of the code under test killed this process; every action is announced
+/// by a Begin line before it is resolved, so the driver knows which one it was)
 pub fn cmd_replay(args: &[String]) -> i32 {
     let mut shard = (0usize, 1usize);
-    if args.len() > 4 && args[3] == "--shard" {
-        let p: Vec<usize> = args[4].split('/').map(|s| s.parse().unwrap()).collect();
-        shard = (p[0], p[1]);
+    let mut from = 0usize;
+    let mut i = 3;
+    while i < args.len() {
+        if args[i] == "--shard" {
+            let p: Vec<usize> = args[i + 1].split('/').map(|s| s.parse().unwrap()).collect();
+            shard = (p[0], p[1]);
+            i += 1;
+        } else if args[i] == "--from" {
+            from = args[i + 1].parse().unwrap();
+            i += 1;
+        }
+        i += 1;
     }
     std::panic::set_hook(Box::new(|_| {}));
     std::fs::create_dir_all(&args[2]).unwrap();
     let root = std::fs::canonicalize(&args[2]).unwrap().join(format!("r{}", shard.0)).join("lib");
     let f = std::fs::File::open(&args[0]).expect("libraries");
-    let mut out = std::io::BufWriter::new(std::fs::File::create(&args[1]).expect("events"));
+    let file = if from > 0 {
+        std::fs::OpenOptions::new().append(true).open(&args[1]).expect("events")
+    } else {
+        std::fs::File::create(&args[1]).expect("events")
+    };
+    let mut out = std::io::BufWriter::new(file);
     let mut n = 0;
     for (ln, line) in std::io::BufReader::new(f).lines().enumerate() {
         let line = line.unwrap();
-        if line.trim().is_empty() || ln % shard.1 != shard.0 {
+        if line.trim().is_empty() || ln % shard.1 != shard.0 || ln < from {
             continue;
         }
         let v: Value = serde_json::from_str(&line).unwrap();
@@ -271,6 +288,8 @@ pub fn cmd_replay(args: &[String]) -> i32 {
             let mut e = json!({"ev":"Action","case":format!("{}:{}:{}:{}", ln, k, line_no, kind),"kind":kind,"key":key_str(&k.split('/').map(|x| x.to_string()).collect::<Vec<_>>()),
                                "line":line_no,"keys_before":lib.keys().map(|x| x.split('/').map(|y| y.to_string()).collect::<Vec<_>>()).collect::<Vec<_>>(),
                                "line_text": lib[k].lines().nth(*line_no as usize).unwrap_or("")});
+            writeln!(out, "{}", json!({"ev":"Begin","ln":ln,"case":e["case"],"kind":e["kind"],"line_text":e["line_text"]})).unwrap();
+            out.flush().unwrap();
             match s.resolve(a) {
                 Err(err) => {
                     e["res"] = json!(err);
